@@ -331,9 +331,17 @@ def _init_fields(kind):
 
 def shape_arg(rng, s, key):
     """a shape given as ndarray, list, tuple or dict"""
-    c = rng.choice(["ndarray", "ndarray32", "ndarray_narrow", "list", "tuple", "dict", "dict_seq"])
+    c = rng.choice(["ndarray", "ndarray32", "ndarray_narrow", "ndarray_be", "list", "tuple", "dict", "dict_seq"])
     a = {"a": "<i8", "sh": [len(s)], "x": np.array(s, dtype="<i8").tobytes().hex()}
     if c == "ndarray":
+        return a
+    if c == "ndarray_be":
+        # a shape array in the other byte order (what a big-endian exporter, or `astype('>i8')`, hands over)
+        for d in rng.sample([">i8", ">i4", ">u2", ">u4"], 4):
+            info = np.iinfo(np.dtype(d))
+            if all(info.min <= v <= info.max for v in s):
+                r = {"a": d, "sh": [len(s)], "x": np.array(s, dtype=np.dtype(d)).tobytes().hex()}
+                return r if rng.random() < 0.6 else {"d": [[key, r]]}
         return a
     if c == "ndarray_narrow":
         # the narrowest integer dtype that holds the entries (their *product* need not fit)
